@@ -5,8 +5,8 @@ package main
 // path table of the top-level builder.
 
 import (
-	"go/token"
 	"fmt"
+	"go/token"
 	"go/types"
 	"sort"
 	"strings"
@@ -41,6 +41,7 @@ type IterPath struct {
 	Stores map[string]string
 	Other  []string // effects the table does not understand
 	NextV  map[string]string
+	Stale  string // an appended error object that was not allocated in this iteration
 }
 
 type ValidatorTable struct {
@@ -213,6 +214,19 @@ func buildValidatorTable(p *Prog, f *ssa.Function, field string) *ValidatorTable
 				t.ErrsPhi = phi.Comment
 				if t.ErrsPhi == "" {
 					t.ErrsPhi = phi.Name()
+				}
+			}
+		}
+	}
+	if t.ErrsPhi == "" {
+		// ... or a variable shared with a closure (a cell)
+		for h := range hdrs {
+			for _, c := range capturedCells(f, h) {
+				if s, ok := c.Type().Underlying().(*types.Pointer).Elem().Underlying().(*types.Slice); ok && types.TypeString(s.Elem(), nil) == "error" {
+					if t.ErrsPhi != "" {
+						t.Problems = append(t.Problems, "two loop-carried []error values")
+					}
+					t.ErrsPhi = cellName(c)
 				}
 			}
 		}
@@ -431,6 +445,13 @@ func (t *ValidatorTable) iterPath(pa *Path) *IterPath {
 		ip.ErrsOK = ok
 		for _, it := range items {
 			ip.Errs = append(ip.Errs, t.errCons(pa, it))
+			// the error object must be allocated in this very iteration: an
+			// object that exists before it (a variable declared outside the
+			// loop, shared with a closure) would be appended again and
+			// overwritten by later iterations
+			if it.Op == "iface" && len(it.Args) == 1 && it.Args[0].Op == "alloc" && !pa.Fresh[it.Args[0].Key()] {
+				ip.Stale = it.Args[0].Key()
+			}
 		}
 	}
 	for name, v := range pa.Next {
